@@ -58,6 +58,8 @@ class World(object):
         other = pysmt.environment.Environment()
         self.bad_map_foreign = {p: other.formula_manager.Symbol("zf", BOOL)}
         self.bad_map_funsym = {x: f}
+        # a long-lived substitution map whose CONTENT is changed between two uses (same object, same address)
+        self.shared_map = {y: m.Plus(x, m.Int(1))}
         self.known = set(m.symbols)
 
     # ---- helpers
@@ -84,6 +86,17 @@ class World(object):
             fresh = sorted(n for n in names if n not in before)
             return rec("terms", ts=[term_io.export(o) for o in out], fresh=fresh), out
         return rec("text", s=str(out)), out
+
+    def _subst_changed_map(self):
+        self.shared_map[self.s["y"]] = self.m.Int(0)
+        return self.phi3.substitute(self.shared_map)
+
+    def _custom_with_rule(self):
+        from pysmt.type_checker import SimpleTypeChecker
+        nt = self._custom_op()
+        self.env.add_dynamic_walker_function(nt, SimpleTypeChecker, SimpleTypeChecker.walk_bool_to_bool)
+        n = self.m.create_node(node_type=nt, args=(self.s["p"],))
+        return "built a node of the custom type with %d argument(s), type %s" % (len(n.args()), n.get_type())
 
     @staticmethod
     def _outcome(fn):
@@ -142,6 +155,7 @@ class World(object):
                                                       m.Real(Fraction(1, 2)), m.Times(x, m.Int(2)), m.Symbol("fresh_user", INT)], "terms")),
             ("get_logic(len(st)<=3)", lambda: self._call(lambda: "%s %s" % (get_logic(self.str_len, self.env), get_logic(self.bv2nat, self.env)), "text")),
             ("get_logic(const array)", lambda: self._call(lambda: get_logic(self.const_arr, self.env), "text")),
+            ("subst shared_map phi3 (quantified)", lambda: self._call(lambda: self.phi3.substitute(self.shared_map))),
         ]
 
     def c15_good_calls(self):
@@ -210,6 +224,8 @@ class World(object):
             ("subst with the map object rejected last", lambda: self._call(lambda: " ".join(self._outcome(fn) for fn in (
                 lambda: self.phi2.substitute(self.bad_map_foreign), lambda: self.phi4.substitute(self.bad_map_funsym),
                 lambda: self.phi1.substitute(self.bad_map_funsym), lambda: self.phi1.substitute(self.bad_map_foreign))), "text"), False),
+            ("subst shared_map after its content changed, phi3", lambda: self._call(lambda: self._subst_changed_map()), False),
+            ("custom node after registering its type-checker rule", lambda: self._call(lambda: self._custom_with_rule(), "text"), False),
             ("subst {x:0} phi1", lambda: self._call(lambda: self.phi1.substitute({x: m.Int(0)})), True),
             ("subst {y:x+1,p:q} phi4", lambda: self._call(lambda: self.phi4.substitute({y: m.Plus(x, m.Int(1)), p: q})), True),
             ("simplify(phi2)", lambda: self._call(lambda: self.phi2.simplify()), True),
